@@ -339,14 +339,17 @@ Section Convert.
     match fuel with
     | O => Err EFuel
     | S f =>
+        (* `cache.get(cell, None)`; `if p_id is not None: return p_id` — a
+           cached None (empty cell) is NOT a hit: the cell is converted again
+           and the counter advances again *)
         match dget c (cref_cache st) with
-        | Some p => Ok (st, p)
-        | None =>
+        | Some (Some p) => Ok (st, Some p)
+        | _ =>
             match dget c cells with
             | None => Err EKey
             | Some g =>
                 do (st1, p) <- pot_convert f st g;
-                Ok (mkSt (next_key st1) (surf_cache st1) ((c, p) :: cref_cache st1) (vols st1), p)
+                Ok (mkSt (next_key st1) (surf_cache st1) (dset c p (cref_cache st1)) (vols st1), p)
             end
         end
     end
